@@ -20,7 +20,7 @@ type bytesCase struct {
 // withSlack returns a copy of b inside a larger backing array so that writes
 // beyond len (up to cap) are observable; guard bytes are 0xA5.
 func withSlack(b []byte) (s []byte, full []byte) {
-	full = make([]byte, len(b)+16)
+	full = make([]byte, len(b)+96) // spare capacity larger than any setter's internal buffer
 	for i := range full {
 		full[i] = 0xA5
 	}
@@ -170,7 +170,7 @@ func runC08(ctx *core.Ctx) {
 		le(big.NewInt(0)), le(new(big.Int).Lsh(big.NewInt(1), 252)), bytes.Repeat([]byte{0xff}, 32),
 		le(new(big.Int).Sub(new(big.Int).Lsh(big.NewInt(1), 252), big.NewInt(1))),
 	}
-	if !ctx.Quick() {
+	if !smoke(ctx) {
 		lb := le(l)
 		for i := 0; i < 32; i++ {
 			b := append([]byte{}, lb...)
@@ -185,7 +185,7 @@ func runC08(ctx *core.Ctx) {
 	add("SetCanonicalBytes", twoByteBall(canonBases[1]))
 	add("SetCanonicalBytes", lengthCases(32))
 	// alphabet S and S+l (non-canonical twins)
-	for _, v := range alpha.Scalars(ctx.Quick()) {
+	for _, v := range alpha.Scalars(smoke(ctx)) {
 		add("SetCanonicalBytes", [][]byte{le(v)})
 		if t := new(big.Int).Add(v, l); t.BitLen() <= 256 {
 			add("SetCanonicalBytes", [][]byte{le(t)})
@@ -203,7 +203,7 @@ func runC08(ctx *core.Ctx) {
 		cat(le(new(big.Int).Sub(l, big.NewInt(1))), le(new(big.Int).Sub(l, big.NewInt(1)))),
 	}
 	nw := len(wideBases)
-	if ctx.Quick() {
+	if smoke(ctx) {
 		nw = 5
 	}
 	for _, b := range wideBases[:nw] {
@@ -216,7 +216,7 @@ func runC08(ctx *core.Ctx) {
 
 	// clamping: bytes 0 and 31 jointly
 	fills := []byte{0x00, 0xff, 0x5a}
-	if ctx.Quick() {
+	if smoke(ctx) {
 		fills = fills[:2]
 	}
 	for _, f := range fills {
